@@ -54,8 +54,13 @@ def _make_add_or_sub_func(docstring, series_op, float_op, series_rop):
             if np.isnan(other.initial_value):
                 data = None
             else:
-                data = self._data.copy()
-                if self._valid_values:
+                if np.isnan(self.initial_value):
+                    # undefined towards -inf: the first step change is an absolute value, so
+                    # only the step values can be shifted by a constant
+                    data = self._get_values().to_frame("value")
+                else:
+                    data = self._data.copy()
+                if "value" in data.columns:
                     data["value"] = series_op(data["value"], other.initial_value)
             return sc.Stairs._new(
                 initial_value=float_op(self.initial_value, other.initial_value),
@@ -66,10 +71,14 @@ def _make_add_or_sub_func(docstring, series_op, float_op, series_rop):
             if np.isnan(self.initial_value):
                 data = None
             else:
-                data = other._data.copy()
-                if other._valid_values:
+                if np.isnan(other.initial_value):
+                    # see above: work on the step values only
+                    data = other._get_values().to_frame("value")
+                else:
+                    data = other._data.copy()
+                if "value" in data.columns:
                     data["value"] = series_rop(data["value"], self.initial_value)
-                if other._valid_deltas:
+                if "delta" in data.columns:
                     data["delta"] = series_rop(data["delta"], 0)
             return sc.Stairs._new(
                 initial_value=float_op(self.initial_value, other.initial_value),
